@@ -38,18 +38,28 @@ RULE = (
     "URI string (de-duplicated), so distinct cases = distinct (config, form, depth, string). Non-trivial = the "
     "reference walk of the URI steps above a configured root at least once (for some admissible interpretation), "
     "or the URI spells an absolute file-system path. "
-    "SHARING OF LOOKUPS IN THE GRID: one TemplateLookup per (configuration, form, depth) serves a whole chunk of <=300 "
-    "URIs, and the module_directory is emptied at the start of every chunk - a deliberate long history; a case that "
-    "fails there is re-executed on a pristine tree and a fresh lookup alone, then after each earlier case of its chunk "
-    "(outside-resolving ones first), then after the whole chunk history, and is reported with the prelude it needs, so "
-    "every reported case replays (a case with a prelude = prelude URIs, then the case, on ONE lookup over one tree). "
-    "TWO-CALL HISTORIES (enumerated, each on a fresh lookup, module_directory emptied before each): for every u1 of "
-    "<=k1 segments (spellings 'a/b', '/a/b', 'a\\b') that resolves outside every root and every u2 != u1 that is "
-    "either any URI of <=k2 segments (spellings 'a/b', '/a/b', 'a\\b', '//a//b'; only when u1 names an existing outside "
-    "file) or any URI of <=keq segments whose root-clamped normal form equals u1's: get_template(u1) then u2 through the "
-    "form, and u2 through the form then get_template(u1). The tree holds, for the outside files <name>, <outsidedir>/"
-    "<name>, an inside file of the same relative name (file present) and for <secret>, <outsidedir>/<secret> none "
-    "(file absent). distinct state = one history; both calls are judged by all oracles."
+    "LOOK-ALIKE FAMILY: segments {name, dir, secret, outsidedir, '..', '.', full-width name} with '..' spelled U+2025, "
+    "U+FF0E U+FF0E, U+2024 U+2024, U+FE52 U+FE52 or half-ASCII, '.' as U+FF0E, one separator of {/, \\, U+FF0F, U+FF3C, "
+    "U+2215, U+29F8, U+FE68} throughout, optional leading separator, at least one non-ASCII character (the reference "
+    "treats these characters as name characters: the URI then resolves inside, and the containment oracles decide). "
+    "PROCESS AND LOOKUP SHARING: the worker never executes a lookup; each chunk of the grid (<=600/1200 URIs x the "
+    "forms/depths of one configuration; one TemplateLookup per (form, depth); module_directory empty at its start) and "
+    "each batch of two-call histories runs in its own child process forked from the worker (which has only compiled the "
+    "five caller texts as in-memory templates) - a deliberate long history over process-wide state, module files and "
+    "lookups. A case that fails there is re-executed in fresh child processes on a pristine tree: alone, then after one "
+    "earlier call of its chunk (the preceding one, outside-resolving ones, the others; <=48), then after the whole chunk "
+    "history, which is reduced by delta debugging; it is reported with the prelude it needs (each step names its lookup "
+    "object), so every reported case replays. "
+    "TWO-CALL HISTORIES (enumerated; each on a fresh lookup; the histories of a batch of 300 share process and "
+    "module_directory): (a) for every u1 of <=k1 segments (spellings 'a/b', '/a/b', 'a\\b') that resolves outside every "
+    "root and every u2 != u1 that is either any URI of <=k2 segments (spellings 'a/b', '/a/b', 'a\\b', '//a//b'; only "
+    "when u1 names an existing outside file) or any URI of <=keq segments whose root-clamped normal form equals u1's: "
+    "get_template(u1) then u2 through the form, and the reverse order; (b) alias histories: for every t of the grid "
+    "spellings (<=n segments over the alphabet + '__') that resolves outside onto an existing file and every h of the same "
+    "universe that does not resolve outside and whose spelling with every non-word character replaced by '_' equals that "
+    "of t (as the form hands it to the lookup): get_template(h) then t through the form, and the reverse order. The tree "
+    "holds inside twins for <name>, <outsidedir>/<name>, __/<name>, __/<secret> (file present) and none for <secret>, "
+    "<outsidedir>/<secret> (file absent). distinct state = one history; both calls are judged by all oracles."
 )
 ASSUMPTIONS = [
     "no symbolic links are planted (not part of the statement); lexical and physical resolution then coincide for every path that exists",
@@ -60,7 +70,8 @@ ASSUMPTIONS = [
     "audit events are recorded for open/os.*/shutil.*/tempfile.*; paths under sys.prefix, the python installation, the mako tree under test and /verif are whitelisted",
     "the quantifier's 'random longer ones' is not implemented: the deciding step is complete enumeration only",
     "state that outlives a call (lookup memo tables, module files) is covered by the enumerated two-call histories and, beyond that bound, only by the <=300-URI chunk histories of the grid; histories of three or more calls are not enumerated systematically",
-    "order-dependent failures: at most 4 failing cases per worker signature and job are re-executed and reported (the others are counted in violations_by_worker_signature); their signature drops the spelling of the second URI and names the kind of earlier call needed",
+    "order-dependent failures: per job at most 3 failing cases per worker signature are re-executed alone and at most 2 per (oracle, access class) get their prelude searched, within 25 s (the others are counted: violations_by_worker_signature, order_dependent_not_searched); their signature drops the spelling of the second URI and names the kind of earlier call needed",
+    "every process first compiles the five caller texts as in-memory templates (no lookup, no file): part of every history, also in replay",
     "CPython os/posixpath, sys.addaudithook and the 30-line reference walker are trusted",
 ]
 BOUNDS = {
@@ -68,9 +79,13 @@ BOUNDS = {
         "n": 4,
         "mix_n": 3,
         "abs_tail": 2,
-        "two_call_histories": "u2 by get_template: (k1,k2,keq)=(3,2,3) on (abs, no modules), all u1; on (two roots, modules) only u1 naming an existing outside "
-        "file; u2 by has_template: (3,2,3) existing-file u1 on (abs, no modules); u2 by each of the five tag forms (caller depth 0): (3,1,2) "
+        "two_call_histories": "u2 by get_template: (k1,k2,keq)=(3,2,3) existing-file u1 and (2,2,2) all u1 on (abs, no modules); (3,2,3) existing-file u1 on (two "
+        "roots, modules); u2 by has_template: (3,2,3) existing-file u1 on (abs, no modules); u2 by each of the five tag forms (caller depth 0): (3,1,2) "
         "existing-file u1 on (abs, no modules); both orders",
+        "alias_histories": "t by get_template: n<=3 (mix<=2) on (abs, no modules), n<=2 on (two roots, modules); t by has_template and the five tag forms "
+        "(caller depth 0): n<=2 on (abs, no modules); both orders",
+        "look_alike_family": "get_template n<=3 on {(abs, no modules), (two roots, modules)}; <%include> depth 0..1 n<=3 and has_template + the other four "
+        "tag forms depth 0..1 n<=2 on (abs, no modules)",
         "plan": "n = segments (pattern+abs families / separator-mix family). get_template: n<=4/3 on (abs root, no modules), n<=3/2 on all 8 "
         "configurations; has_template: n<=3/2 on (abs, no modules), n<=2/2 on all 8; <%include>: depth 1 n<=4/2, depth 0..3 n<=3/2 on (abs, no "
         "modules); inherit, namespace, ns.get_template, ns.get_namespace: depth 1 n<=3/2 on (abs, no modules); all five tag forms depth 0..3 "
@@ -80,6 +95,10 @@ BOUNDS = {
         "n": 6,
         "mix_n": 4,
         "abs_tail": 3,
+        "alias_histories": "t by get_template n<=3 (mix<=3) on (abs, no modules); has_template and <%include> n<=3 (mix<=2) on {(abs, no modules), (two roots, "
+        "modules)}; all seven forms n<=2 on all 8 configurations; both orders",
+        "look_alike_family": "get_template n<=4 on (abs, no modules), get_template/has_template n<=3 on all 8; five tag forms depth 0..2 n<=3 on {(abs, no "
+        "modules), (two roots, modules)}",
         "two_call_histories": "u2 by get_template: (k1,k2,keq)=(3,3,3) all u1 and (4,2,4) existing-file u1 on (abs, no modules); get_template and has_template "
         "(3,2,3) existing-file u1 on all 8 configurations; five tag forms (caller depth 0) (3,2,2) existing-file u1 on {(abs, no modules), "
         "(two roots, modules)}; both orders",
@@ -463,6 +482,7 @@ class World:
               os.path.dirname(os.__file__)}
         self.whitelist = tuple(sorted(os.path.realpath(p) for p in wl if p))
         install_hook()
+        warm()
 
     def rebuild(self):
         import shutil
@@ -797,6 +817,23 @@ CHAIN = "same-lookup"  # cases carrying this key are replayed, in order, in ONE 
 # the history of that chunk / batch / sequence - and a reported case replays.
 
 
+_WARM = []
+
+
+def warm():
+    """Every process (worker, and hence each child; replay interpreter) first
+    compiles the five caller texts as in-memory templates without a lookup and
+    without rendering them: fills the regex / parser caches so that a forked
+    child does not pay for them again.  No lookup, no file, no module file."""
+    if not _WARM:
+        from mako.template import Template
+
+        for k in sorted(CALLER_SRC):
+            Template(CALLER_SRC[k] + "\n% if True:\n${1}\n% endif\n<%def name='d()'></%def>")
+        rec_lookup_class()
+        _WARM.append(1)
+
+
 def fork_call(fn, *args):
     import pickle
     import traceback
@@ -838,7 +875,8 @@ PAIR_SP1 = [("", "/"), ("/", "/"), ("", "\\")]
 PAIR_SP2 = [("", "/"), ("/", "/"), ("", "\\"), ("//", "//")]
 PAIR_PLANS = {
     "quick": [
-        (["G"], [_AO], 3, 2, 3, False),
+        (["G"], [_AO], 3, 2, 3, True),
+        (["G"], [_AO], 2, 2, 2, False),
         (["G"], [_TM], 3, 2, 3, True),
         (["H"], [_AO], 3, 2, 3, True),
         (TAG_FORMS, [_AO], 3, 1, 2, True),
@@ -961,7 +999,7 @@ def cases_for(tier, n, fam):
     return out
 
 
-CHUNK = {"quick": 300, "thorough": 900}
+CHUNK = {"quick": 600, "thorough": 1200}
 
 
 def run_job(job):
@@ -1031,8 +1069,10 @@ def base_of(sig):
     return head + (": " + cls if cls else "")
 
 
-RESOLVE_PER_SIG = 4  # per job and signature: how many failing cases are re-executed in fresh processes
-SEARCH_MAX = 320
+RESOLVE_PER_SIG = 3  # per job and worker signature: how many failing cases are re-executed alone in a fresh process
+SEARCH_PER_BASE = 2  # per job and (oracle, access class): how many order-dependent failures get their prelude searched
+SEARCH_MAX = 48  # single earlier calls tried before the whole history is replayed and reduced
+RESOLVE_SECONDS = 25  # per job: wall budget for prelude searches (afterwards order-dependent failures are only counted)
 
 
 def _seq_child(w, ci, seq):
@@ -1091,7 +1131,23 @@ def resolve_history(w, st, ci, case, viols, history, budget):
             dep.append(v)
     if not dep:
         return out
-    rx["order_dependent_failures_resolved"] = rx.get("order_dependent_failures_resolved", 0) + len(dep)
+    import time as _time
+
+    rx["order_dependent_failures"] = rx.get("order_dependent_failures", 0) + len(dep)
+    t0 = _time.time()
+    spent = budget.get("\0seconds", 0.0)
+    keep = []
+    for v in dep:
+        b = "\0search:" + base_of(v[0])
+        if budget.get(b, 0) < SEARCH_PER_BASE and spent < RESOLVE_SECONDS:
+            keep.append(v)
+    for b in {"\0search:" + base_of(v[0]) for v in keep}:
+        budget[b] = budget.get(b, 0) + 1
+    if len(keep) < len(dep):
+        rx["order_dependent_not_searched"] = rx.get("order_dependent_not_searched", 0) + len(dep) - len(keep)
+    dep = keep
+    if not dep:
+        return out
     need = {v[0] for v in dep}
     found = {}
     # candidates: the call just before, then URIs resolving outside the roots (nearest first), then the others
@@ -1118,10 +1174,11 @@ def resolve_history(w, st, ci, case, viols, history, budget):
         hit = _pristine_run(w, ci, list(history) + [case]) & missing
         if hit:
             target = sorted(hit)[0]
-            small = _ddmin(list(history), lambda sub: target in _pristine_run(w, ci, sub + [case]), rx)
+            small = _ddmin(list(history), lambda sub: target in _pristine_run(w, ci, sub + [case]), rx, 60)
             again = _pristine_run(w, ci, small + [case])
             for sg in hit:
                 found[sg] = small if sg in again else list(history)
+    budget["\0seconds"] = spent + _time.time() - t0
     for v in dep:
         h = found.get(v[0])
         if h is None:
@@ -1627,7 +1684,9 @@ LEVEL_TEXT = (
     "BOUNDS[tier]['plan'] (the full product of the design is cut to that plan for cost); on each case the "
     "returned filenames, all audited file events, the markers in output and exception text, the refusal demanded by "
     "the reference walker and (per chunk, attributed per case on difference) the tree snapshot are checked. In addition "
-    "every two-call history (outside-resolving URI, other URI; both orders) of the stated bound runs on a fresh lookup. "
+    "every two-call history (outside-resolving URI with another URI, and with every alias under identifier sanitisation; both "
+    "orders) of the stated bound runs on a fresh lookup, and the look-alike (Unicode compatibility) spellings of the path syntax "
+    "are enumerated. Chunks run in forked child processes so that process-wide state has a bounded, replayable history. "
     "Complete within those bounds; no sampling."
 )
 LEVEL_NOTE = (
